@@ -29,14 +29,19 @@ structure Arm where
   torn : Nat
   deriving Repr, Inhabited
 
-structure St where
+/-- the flat-file side: by construction nothing here can touch leveldb -/
+structure FS where
   net : Nat := 0
   max : Nat := 67108864
   files : Files := []
   curFile : Nat := 0
   curOff : Nat := 0
-  db : DB := {}
   arm : Option Arm := none
+  deriving Repr, Inhabited
+
+structure St where
+  fs : FS := {}
+  db : DB := {}
   deriving Repr, Inhabited
 
 def serLoc (l : Loc) : Bytes := le32 l.file ++ le32 l.off ++ le32 l.len
@@ -46,7 +51,7 @@ def writeRow (crc : Bytes → Nat) (f o : Nat) : Bytes :=
   b ++ le32 (crc b)
 
 /-- outcome of reaching a crash point: `true` = the process dies here -/
-def hit (s : St) (name : String) : St × Bool :=
+def hit (s : FS) (name : String) : FS × Bool :=
   match s.arm with
   | none => (s, false)
   | some a =>
@@ -55,7 +60,7 @@ def hit (s : St) (name : String) : St × Bool :=
     else ({ s with arm := none }, true)
 
 /-- `writeData(data, field)`: crash point before, possibly torn write, crash point after -/
-def writeData (s : St) (data : Bytes) (field : String) : St × Bool :=
+def writeData (s : FS) (data : Bytes) (field : String) : FS × Bool :=
   let (s, dead) := hit s ("writeData.before." ++ field)
   if dead then (s, true) else
   let (s, data) :=
@@ -70,7 +75,7 @@ def writeData (s : St) (data : Bytes) (field : String) : St × Bool :=
   hit s ("writeData.after." ++ field)
 
 /-- `writeBlock` in micro steps; returns the location when it completes -/
-def writeBlock (crc : Bytes → Nat) (s : St) (d : Bytes) : St × Option Loc :=
+def writeBlock (crc : Bytes → Nat) (s : FS) (d : Bytes) : FS × Option Loc :=
   let fullLen := u32 (u32 d.length + 12)
   let final := u32 (s.curOff + fullLen)
   let (s, dead) :=
@@ -78,6 +83,10 @@ def writeBlock (crc : Bytes → Nat) (s : St) (d : Bytes) : St × Option Loc :=
       hit { s with curFile := u32 (s.curFile + 1), curOff := 0 } "writeBlock.rollover"
     else (s, false)
   if dead then (s, none) else
+  -- `openWriteFile` (O_CREATE) when the current file is not open: the file exists from here on
+  let s := match fileAt s.files s.curFile with
+    | some _ => s
+    | none => { s with files := ElaVerif.BlockStore.setFile s.files s.curFile (some []) }
   let orig := s.curOff
   let body := le32 s.net ++ le32 (u32 d.length) ++ d
   let (s, dead) := writeData s (le32 s.net) "network"
@@ -93,18 +102,20 @@ def writeBlock (crc : Bytes → Nat) (s : St) (d : Bytes) : St × Option Loc :=
 /-- `commitTreaps` = one leveldb batch, with the crash point between its puts and deletes
     (a crash there discards the batch: leveldb atomicity, trusted) -/
 def ldbBatch (s : St) (puts removes : ElaVerif.OrdMap.Map) : St × Bool :=
-  let (s, dead) := hit s "commitTreaps.mid"
-  if dead then (s, true) else
-  ({ s with db := { s.db with ldb := ElaVerif.Ffldb.applyTo s.db.ldb puts removes } }, false)
+  let (fs, dead) := hit s.fs "commitTreaps.mid"
+  if dead then ({ s with fs := fs }, true) else
+  ({ fs := fs, db := { s.db with ldb := ElaVerif.Ffldb.applyTo s.db.ldb puts removes } }, false)
 
 /-- `dbCache.flush` -/
 def flush (s : St) : St × Bool :=
-  let (s, dead) := hit s "flush.afterSync"
+  let (fs, dead) := hit s.fs "flush.afterSync"
+  let s := { s with fs := fs }
   if dead then (s, true) else
   if s.db.ckeys.isEmpty && s.db.cremoves.isEmpty then (s, false) else
   let (s, dead) := ldbBatch s s.db.ckeys s.db.cremoves
   if dead then (s, true) else
-  let (s, dead) := hit s "flush.afterCommit"
+  let (fs, dead) := hit s.fs "flush.afterCommit"
+  let s := { s with fs := fs }
   if dead then (s, true) else
   ({ s with db := { s.db with ckeys := [], cremoves := [] } }, false)
 
@@ -113,51 +124,57 @@ def commitTx (s : St) (t : Tx) : St × Bool :=
   if s.db.needsFlush t then
     let (s, dead) := flush s
     if dead then (s, true) else
-    let (s, dead) := hit s "commitTx.afterFlush"
+    let (fs, dead) := hit s.fs "commitTx.afterFlush"
+    let s := { s with fs := fs }
     if dead then (s, true) else
     let (s, dead) := ldbBatch s t.pkeys t.premoves
     if dead then (s, true) else
-    hit s "commitTx.afterWrite"
+    let (fs, dead) := hit s.fs "commitTx.afterWrite"
+    ({ s with fs := fs }, dead)
   else
     ({ s with db := s.db.commitTx t }, false)
 
 def hash32 (h : Bytes) : Bytes := (h ++ List.replicate 32 0).take 32
 
 /-- the loop over the pending blocks -/
-def writeBlocks (crc : Bytes → Nat) : St → Tx → List (Bytes × Bytes) → St × Tx × Bool
+def writeBlocks (crc : Bytes → Nat) : FS → Tx → List (Bytes × Bytes) → FS × Tx × Bool
   | s, t, [] => (s, t, false)
   | s, t, (h, d) :: rest =>
     match writeBlock crc s d with
     | (s, none) => (s, t, true)
     | (s, some loc) => writeBlocks crc s (t.putKey (bucketizedKey blockIdxID (hash32 h)) (serLoc loc)) rest
 
+/-- the transaction as `writePendingAndCommit` hands it to the cache -/
+def finalTx (crc : Bytes → Nat) (t : Tx) (fs : FS) : Tx :=
+  t.putKey (bucketizedKey metaID writeLocKey) (writeRow crc fs.curFile fs.curOff)
+
 /-- a whole transaction: metadata puts, block stores, `Commit`.  `true` = died on the way. -/
 def commit (crc : Bytes → Nat) (s : St) (blocks : List (Bytes × Bytes)) (kvs : List (Bytes × Bytes)) : St × Bool :=
   let t : Tx := { writable := true, snap := s.db.snapshot }
   let t := kvs.foldl (fun t e => t.putKey (bucketizedKey metaID e.1) e.2) t
-  let (s, t, dead) := writeBlocks crc s t blocks
-  if dead then (s, true) else
-  let (s, dead) := hit s "commit.afterBlocks"
-  if dead then (s, true) else
-  let t := t.putKey (bucketizedKey metaID writeLocKey) (writeRow crc s.curFile s.curOff)
-  let (s, dead) := hit s "commit.beforeCache"
-  if dead then (s, true) else
-  commitTx s t
+  let (fs, t, dead) := writeBlocks crc s.fs t blocks
+  if dead then ({ s with fs := fs }, true) else
+  let (fs, dead) := hit fs "commit.afterBlocks"
+  if dead then ({ s with fs := fs }, true) else
+  let t := finalTx crc t fs
+  let (fs, dead) := hit fs "commit.beforeCache"
+  if dead then ({ s with fs := fs }, true) else
+  commitTx { s with fs := fs } t
 
 /-- the process dies: files and leveldb stay, everything volatile is gone -/
 def crash (s : St) : St :=
-  { s with db := { s.db with ckeys := [], cremoves := [] }, arm := none }
+  { fs := { s.fs with arm := none }, db := { s.db with ckeys := [], cremoves := [] } }
 
 /-- `openDB` + `reconcileDB` (`none` = ErrCorruption) -/
 def reopen (s : St) : Option St :=
   let s := { s with db := s.db.flush }       -- no-op after a crash; the clean-close flush otherwise
   let row := (find (bucketizedKey metaID writeLocKey) s.db.ldb).getD []
   let (wf, wo) := (rdLe32 row, rdLe32 (row.drop 4))
-  let (sf, so) := scan s.files 0 (0, 0)
+  let (sf, so) := scan s.fs.files 0 (0, 0)
   if sf > wf ∨ (sf = wf ∧ so > wo) then
-    some { s with files := truncateTo s.files wf wo sf, curFile := wf, curOff := wo }
+    some { s with fs := { s.fs with files := truncateTo s.fs.files wf wo sf, curFile := wf, curOff := wo } }
   else if sf < wf ∨ (sf = wf ∧ so < wo) then none
-  else some { s with curFile := sf, curOff := so }
+  else some { s with fs := { s.fs with curFile := sf, curOff := so } }
 
 /-- `FetchBlock` through the block index in the metadata -/
 def fetch (crc : Bytes → Nat) (s : St) (h : Bytes) : Option Bytes :=
@@ -165,7 +182,7 @@ def fetch (crc : Bytes → Nat) (s : St) (h : Bytes) : Option Bytes :=
   | none => none
   | some row =>
     let loc := deserLoc row
-    match fileAt s.files loc.file with
+    match fileAt s.fs.files loc.file with
     | none => none
     | some f =>
       match readAt f loc.off loc.len with
@@ -173,7 +190,7 @@ def fetch (crc : Bytes → Nat) (s : St) (h : Bytes) : Option Bytes :=
       | some data =>
         let n := data.length
         if rdBe32 (data.drop (n - 4)) ≠ crc (data.take (n - 4)) then none
-        else if rdLe32 data ≠ s.net then none
+        else if rdLe32 data ≠ s.fs.net then none
         else some ((data.take (n - 4)).drop 8)
 
 def getMeta (s : St) (k : Bytes) : Option Bytes := find (bucketizedKey metaID k) s.db.view
